@@ -216,7 +216,7 @@ func runLcCase(c *lcCase) lcObs {
 			atomic.AddInt32(&rfCalls, 1)
 			fr := newFakeRunner()
 			fakes = append(fakes, fr)
-			line := "1|3|tcp|127.0.0.1:1|netrpc|\n"
+			line := "1|3|tcp|:1|netrpc|\n" // a host-less address, as a plugin listening on all interfaces announces it
 			if !c.hs {
 				line = "this is not a handshake line\n"
 			}
